@@ -581,6 +581,25 @@ func c12Generation(c *Ctx, rule string, serve *ssa.Function, adds []*cacheInsert
 					okb = false
 				}
 			}
+			// ... and the new value is certain to differ from the old one: an increment of the field itself. (A
+			// pointer to the served database does not qualify: a RocksDB catch-up keeps the same *DB while its
+			// content advances.)
+			inc := len(sts) > 0
+			for _, st := range sts {
+				bo, isB := st.Val.(*ssa.BinOp)
+				if !isB || bo.Op != token.ADD {
+					inc = false
+					continue
+				}
+				k, isK := constInt(bo.Y)
+				if !(isFieldLoad(bo.X, genField) && isK && k != 0) {
+					k2, isK2 := constInt(bo.X)
+					if !(isFieldLoad(bo.Y, genField) && isK2 && k2 != 0) {
+						inc = false
+					}
+				}
+			}
+			c.Check(rule, fnName(rf)+"|generation-always-changes", inc, rf.Pos(), "the generation stored by a successful reload is the previous one plus a non-zero constant, so it differs even when the same *DB object keeps being served (RocksDB catch-up)")
 			c.Check(rule, fnName(rf)+"|bumps-generation-with-swap", okb, rf.Pos(), "every successful reload changes the generation under the write lock, so stale inserts are refused after the purge")
 		}
 	}
